@@ -468,6 +468,70 @@ impl Format for RecStream {
     }
 }
 
+/// globals of a zero-sized type that nevertheless write fields and carry a sample group (constants)
+#[derive(Clone)]
+struct ZGlobals;
+impl Entry for ZGlobals {
+    fn write<'a>(&'a self, writer: &mut impl metrique_writer::EntryWriter<'a>) {
+        writer.value("Region", &"us-east-1");
+        writer.value("BuildNumber", &7u64);
+    }
+    fn sample_group(&self) -> impl Iterator<Item = (Cow<'static, str>, Cow<'static, str>)> {
+        [(Cow::Borrowed("Region"), Cow::Borrowed("us-east-1"))].into_iter()
+    }
+}
+
+/// the mutators of a long-lived WithGlobalDimensions: dimensions rotated (cleared, added again)
+/// any number of times, the deny-list untouched unless it is cleared explicitly
+fn rotated_global_dimensions_case(rng: &mut Rng, rep: &Report) -> bool {
+    rep.eval();
+    let e = gen_program(rng, false);
+    let plain = (record(&e), record_sample_group(&e));
+    let mut dims: Vec<(String, String)> = (0..1 + rng.below(2)).map(|i| (format!("SG{i}"), gen_text(rng, false))).collect();
+    let mut deny: Vec<String> = gen_deny(rng);
+    // deny-list some of the entry's own metric names, so that the list matters
+    for op in &plain.0 {
+        if let Op::Value { name, val: Val::Metric { .. } } = op {
+            if rng.bool() {
+                deny.push(name.clone());
+            }
+        }
+    }
+    let mut w = WithGlobalDimensions::<_, 2>::new_with_global_dimensions(e.clone(), cow_dims(&dims), deny.iter().map(|d| Cow::Owned(d.clone())).collect::<HashSet<_>>());
+    let mut steps: Vec<String> = vec![];
+    for _ in 0..1 + rng.below(5) {
+        match rng.below(4) {
+            0 => {
+                w.clear_global_dimensions();
+                dims.clear();
+                steps.push("clear_global_dimensions".into());
+            }
+            1 | 2 => {
+                let d = (format!("Rot{}", rng.below(3)), gen_text(rng, false));
+                w.add_global_dimension(d.0.clone(), d.1.clone());
+                dims.push(d);
+                steps.push("add_global_dimension".into());
+            }
+            _ => {
+                if rng.below(4) == 0 {
+                    w.clear_global_dimensions_denylist();
+                    deny.clear();
+                    steps.push("clear_global_dimensions_denylist".into());
+                }
+            }
+        }
+        let got = (record(&w), record_sample_group(&w));
+        let exp = if dims.is_empty() { plain.clone() } else { expect(&Layer::GlobalDims { dims: dims.clone(), deny: deny.clone() }, plain.0.clone(), plain.1.clone()) };
+        if got != exp {
+            rep.violation("wrapped-entry-log-differs", json!({"what": "WithGlobalDimensions after its mutators: every metric not on the deny-list gets exactly the current global dimensions appended, deny-listed metrics and everything else stay as they are",
+                "mutators_called": steps, "current_dimensions": dims, "deny_list": deny, "entry": e.json(), "diff": diff(&got.0, &exp.0)}));
+            return false;
+        }
+    }
+    rep.count("rotated_global_dimension_cases", 1);
+    true
+}
+
 fn stream_case(rng: &mut Rng, rep: &Report) -> bool {
     let emf_flags = false;
     let e = gen_program(rng, emf_flags);
@@ -524,6 +588,26 @@ fn stream_case(rng: &mut Rng, rep: &Report) -> bool {
         let exp = if dims.is_empty() { (plain.clone(), sg.clone()) } else { expect(&Layer::GlobalDims { dims: dims.clone(), deny: deny.clone() }, plain.clone(), sg.clone()) };
         results.push(("format.merge_global_dimensions", r.0.lock().unwrap()[0].clone(), exp.clone()));
         results.push(("format.merge_global_dimensions, third pass (the second one failed downstream)", r.0.lock().unwrap().get(1).cloned().unwrap_or_default(), exp));
+    }
+    {
+        // globals of a zero-sized type (they still write two fields and a sample-group element)
+        let zexp = || {
+            let mut l = record(&ZGlobals);
+            l.extend(plain.clone());
+            let mut g2 = record_sample_group(&ZGlobals);
+            g2.extend(sg.clone());
+            (l, g2)
+        };
+        let r = RecStream::default();
+        let mut s = EntryIoStreamExt::merge_globals(r.clone(), ZGlobals);
+        let _ = s.next(&e);
+        results.push(("stream.merge_globals(zero-sized globals)", r.0.lock().unwrap()[0].clone(), zexp()));
+        let r = RecStream::default();
+        let mut s = FormatExt::merge_globals(r.clone(), ZGlobals);
+        let _ = s.format(&e, &mut io::sink());
+        results.push(("format.merge_globals(zero-sized globals)", r.0.lock().unwrap()[0].clone(), zexp()));
+        let merged = ZGlobals.merge(e.clone()).boxed();
+        results.push(("zero-sized globals .merge(entry).boxed()", (record(&merged), record_sample_group(&merged)), zexp()));
     }
     {
         let r = RecStream::default();
@@ -728,6 +812,7 @@ fn main() {
                 while start.elapsed() < budget && rep.violation_count() == 0 {
                     let kinds = if rng.below(16) == 0 { 5 } else { 4 };
                     let ok = match rng.below(kinds) {
+                        4 if rng.below(3) == 0 => rotated_global_dimensions_case(&mut rng, rep),
                         4 if rng.bool() => zst_config_case(&mut rng, rep),
                         4 => after_unwound_write_case(&mut rng, rep),
                         0 => value_case(&mut rng, rep),
